@@ -2,6 +2,7 @@ package props
 
 import (
 	"fmt"
+	"os"
 	"strings"
 	"testing"
 	"time"
@@ -415,12 +416,16 @@ var c12capacity = Register(&Prop[CapacityCase]{ID: "C12", Name: "capacity-source
 
 func capacityCases() []*CapacityCase {
 	cs := []*CapacityCase{
-		{Kind: "long-arms", N: 5457, Sel: false}, {Kind: "long-arms", N: 5458, Sel: true},
+		{Kind: "long-arms", N: 5457, Sel: false}, {Kind: "long-arms", N: 5458, Sel: true}, {Kind: "long-then", N: 16386}, {Kind: "long-then", N: 16390}, {Kind: "long-then", N: 16394},
 	}
-	if Tier == "thorough" {
+	if Tier == "thorough" || os.Getenv("VERIF_CAPACITY_ALL") != "" {
 		cs = append(cs, &CapacityCase{Kind: "long-arms", N: 5400}, &CapacityCase{Kind: "long-arms", N: 5470}, &CapacityCase{Kind: "long-arms", N: 8000, Sel: true},
 			&CapacityCase{Kind: "long-arms", N: 11000}, &CapacityCase{Kind: "wide-list", N: 22000}, &CapacityCase{Kind: "deep-right", N: 1500}, &CapacityCase{Kind: "nested-logic", N: 1500},
 			&CapacityCase{Kind: "nested-thunks", N: 1000}, &CapacityCase{Kind: "wide-obj", N: 8000}, &CapacityCase{Kind: "wide-map", N: 8000})
+		// the selected arm ends within a few instructions of byte 65 536: every alignment of the jump over the other arm
+		for n := 16380; n <= 16400; n++ {
+			cs = append(cs, &CapacityCase{Kind: "long-then", N: n, Sel: n%2 == 1})
+		}
 	}
 	return cs
 }
